@@ -43,6 +43,7 @@ class YowNoiseLayer(YowLayer):
         self._stream = BlockingQueueSegmentedStream()  # type: BlockingQueueSegmentedStream
         self._read_buffer = bytearray()
         self._flush_lock = threading.Lock()
+        self._flushing_thread = None
         self._incoming_segments_queue = Queue.Queue()
         self._profile = None
         self._rs = None
@@ -164,11 +165,18 @@ class YowNoiseLayer(YowLayer):
         self._wa_noiseprotocol.send(data)
 
     def _flush_incoming_buffer(self):
+        if self._flushing_thread == threading.current_thread().ident:
+            # the protocol's state callback fired from inside receive() on the thread that is
+            # already flushing (a frame arrived right when the handshake completed): the running
+            # loop goes on draining the queue, waiting for the lock here would block it forever
+            return
         self._flush_lock.acquire()
         try:
+            self._flushing_thread = threading.current_thread().ident
             while self._incoming_segments_queue.qsize():
                 self.toUpper(self._wa_noiseprotocol.receive())
         finally:
+            self._flushing_thread = None
             self._flush_lock.release()
 
     def receive(self, data):
